@@ -218,6 +218,76 @@ pub fn asym_nontrivial(a: &Mat) -> bool {
     a.r >= 2 && a.c >= 2 && !(a.r == a.c && a.t() == *a)
 }
 
+/// exhaustive structural cases: every shape up to 4x4 with pairwise distinct entries x every slice, every reshape
+/// target (plus an incompatible one), every take list of length 1..2 on both axes, every row / column, transpose,
+/// flatten, and stacking with every second shape up to 3x3 (compatible and not)
+fn enum_structural(t: Tier) -> Box<dyn Iterator<Item = MatCase>> {
+    let max = t.pick(4, 5);
+    let mut out: Vec<MatCase> = vec![];
+    for r in 1..=max {
+        for c in 1..=max {
+            let a = Mat::from_fn(r, c, |i, j| ((i * c + j + 1) as f64) * if (i + j) % 3 == 0 { -1.0 } else { 1.0 });
+            let none = Mat::zeros(1, 1);
+            let mut push = |op: Op, b: &Mat| {
+                for f32 in [false, true] {
+                    out.push(MatCase { f32, op: op.clone(), a: a.clone(), b: b.clone() });
+                }
+            };
+            for r0 in 0..r {
+                for r1 in r0 + 1..=r {
+                    for c0 in 0..c {
+                        for c1 in c0 + 1..=c {
+                            push(Op::Slice { r0, r1, c0, c1 }, &none);
+                        }
+                    }
+                }
+            }
+            let n = r * c;
+            for d in 1..=n + 1 {
+                if n % d == 0 {
+                    push(Op::Reshape { r: d, c: n / d }, &none);
+                }
+            }
+            push(Op::Reshape { r, c: c + 1 }, &none);
+            push(Op::Reshape { r: r + 1, c }, &none);
+            for (axis, len) in [(0u8, r), (1u8, c)] {
+                for i in 0..len {
+                    push(Op::Take { idx: vec![i], axis }, &none);
+                    for j in 0..len {
+                        push(Op::Take { idx: vec![i, j], axis }, &none);
+                    }
+                }
+            }
+            for i in 0..r {
+                push(Op::GetRow { i }, &none);
+            }
+            for j in 0..c {
+                push(Op::GetCol { j }, &none);
+            }
+            push(Op::Transpose, &none);
+            push(Op::ToRowVector, &none);
+            push(Op::FromRowVector, &none);
+            push(Op::Read, &none);
+            push(Op::Argmax, &none);
+            for br in 1..=3 {
+                for bc in 1..=3 {
+                    let b = Mat::from_fn(br, bc, |i, j| 100.0 + (i * bc + j) as f64);
+                    push(Op::HStack, &b);
+                    push(Op::VStack, &b);
+                    push(Op::Matmul, &b);
+                    push(Op::Ab { ta: true, tb: false }, &b);
+                    push(Op::Ab { ta: false, tb: true }, &b);
+                    push(Op::Ab { ta: true, tb: true }, &b);
+                    push(Op::CopyFrom, &b);
+                    push(Op::Bin(Arith::Sub), &b);
+                    push(Op::Eq, &b);
+                }
+            }
+        }
+    }
+    Box::new(out.into_iter())
+}
+
 fn check_matop(case: &MatCase, ctx: &mut Ctx) -> Result<(), Fail> {
     let (a, b, eps) = if case.f32 {
         (to_f32_grid(&case.a), to_f32_grid(&case.b), f32::EPSILON as f64)
@@ -787,7 +857,7 @@ pub fn property() -> Property {
     Property {
         id: "C03",
         quick_mult: 80,
-        rule: "cases = (operation, operands, element type) drawn by proptest from shape classes {general,1xN,Nx1,1x1} x value classes {mixed,all-negative,all-equal,integers,large,offset} x compatible/incompatible pairings; non-trivial = both dimensions >= 2 and the matrix is not square-symmetric (matop/ctor/scale), vector length >= 2 (vecop), >= 3 values along the axis with |mean| >= 100*spread (var_std), non-constant input (softmax), >= 3 applied steps (op_sequences); distinct = distinct serialised case",
+        rule: "cases = (operation, operands, element type) drawn by proptest from shape classes {general,1xN,Nx1,1x1} x value classes {mixed,all-negative,all-equal,integers,large,offset} x compatible/incompatible pairings, plus the exhaustive enumeration of every slice / reshape / take(<=2) / row / column / stacking / product pairing for all shapes up to 4x4 (thorough: 5x5) with pairwise distinct entries; non-trivial = both dimensions >= 2 and the matrix is not square-symmetric (matop/ctor/scale), vector length >= 2 (vecop), >= 3 values along the axis with |mean| >= 100*spread (var_std), non-constant input (softmax), >= 3 applied steps (op_sequences); distinct = distinct serialised case",
         assumptions: vec![
             "DenseMatrix::dot with exactly one vector operand of equal element count (e.g. 2x3 . 1x6) is not decided by the property text and is not asserted".into(),
             "`==` on matrices is the library's epsilon comparison: asserted true for identical operands, false for differing shapes or entries differing by more than 1e-3".into(),
@@ -795,7 +865,7 @@ pub fn property() -> Property {
             "slice/take/get/set are exercised with in-range indices only".into(),
         ],
         subs: vec![
-            sub("matop", (12000, 400000), strat_matop, check_matop),
+            sub_enum("matop", (12000, 400000), strat_matop, check_matop, enum_structural),
             sub("vecop", (5000, 150000), strat_vecop, check_vecop),
             sub("var_std", (4000, 100000), strat_var, check_var_case),
             sub("scale", (1000, 30000), strat_scale, check_scale),
